@@ -10,6 +10,7 @@ package main
 
 import (
 	"context"
+	"errors"
 	"fmt"
 	"io"
 	"log"
@@ -308,6 +309,32 @@ func (w *world) newJunk(kind string, body string) *content {
 }
 
 var badKeys = []string{"", "bad key", "bad/key", "kéy", strings.Repeat("k", 129), "tab\tkey"}
+
+// badKeysAt are invalid filter keys by the position they take once loadIndex
+// has sorted the index by key: position p sorts after keyNames[p] and before
+// keyNames[p+1] (0: before every valid key, len(keyNames)-1: after all of
+// them).  Code that walks the sorted entries meets them at that place.
+var badKeysAt = [][]string{
+	{"", "bad key", "bad/key", "kéy", strings.Repeat("k", 129), "LISTA UPPER"},
+	{"lista x", "lista/x", "lista\tq"},
+	{"listb ", "listb/", "listb\u00e9"},
+	{"listc\n", "listc/sub", "listc z"},
+	{"zz/bad", "tab\tkey", "listd/x", "listd ", strings.Repeat("z", 200)},
+}
+
+func init() {
+	// The positions are what the pool is for: check them once.
+	for p, pool := range badKeysAt {
+		for _, k := range pool {
+			if (p > 0 && !(keyNames[p] < k)) || (p+1 < len(keyNames) && !(k < keyNames[p+1])) {
+				panic(fmt.Sprintf("badKeysAt[%d]: %q is out of place", p, k))
+			}
+			if _, err := filter.NewID(k); err == nil {
+				panic(fmt.Sprintf("badKeysAt[%d]: %q is a valid id", p, k))
+			}
+		}
+	}
+}
 var badURLs = []string{"", "ftp://example.org/list.txt", "http://", "/relative/path", "://bad", "file:///etc/passwd", "http://[::1"}
 
 // newIdx builds an index content from entries.  shape: ok, notjson, trunc,
@@ -763,7 +790,7 @@ func runCase(r *hlib.Result, m *hlib.Model, w *world, cs *caseSpec, caseNo int) 
 		w.snapOn = false
 		reqs := w.reqs
 		w.mu.Unlock()
-		if cs.timeouts && took > time.Duration(nTimeouts)*fastTimeout+fastTimeout*2/3 {
+		if (cs.timeouts && took > time.Duration(nTimeouts)*fastTimeout+fastTimeout*2/3) || (!cs.timeouts && took > longTimeout*3/5) {
 			// Scheduling jitter may have turned a good download into a
 			// time-out; the verdicts of this case are not trustworthy.
 			discarded = true
@@ -777,6 +804,11 @@ func runCase(r *hlib.Result, m *hlib.Model, w *world, cs *caseSpec, caseNo int) 
 		canon = append(canon, fmt.Sprintf("%s|%s|%s|%v", lines[len(lines)-1], planSummary(rs, cs), cur.String(), rs.fresh))
 
 		replay := map[string]any{"case": caseNo, "case_name": cs.name, "round": ri, "ops": lines, "before": prev.String(), "after": cur.String(), "plans": planSummary(rs, cs), "err": fmt.Sprint(rerr)}
+		if rs.idx.c != nil && len(rs.idx.c.body) <= 4096 {
+			// The ops name keys and URLs by number; the document shows the
+			// actual strings (and with them the sort order of the entries).
+			replay["index_document_offered"] = string(rs.idx.c.body)
+		}
 		f, a := oracle(r, w, cs, rs, acceptStale, prev, cur, reqs, replay)
 		sawFault = sawFault || f
 		sawApplied = sawApplied || a
@@ -1018,6 +1050,24 @@ func oracle(r *hlib.Result, w *world, cs *caseSpec, rs *roundSpec, acceptStale b
 		// O3: memory is the previous, the previously stored, or the newly
 		// offered complete document; a list may vanish only when a successful
 		// round's index does not name it.
+		if hasInvalidEntry && len(validURLs) == 0 && pm != "" && cm == pm {
+			// Kept although the index offers nothing usable for it; count in
+			// which neighbourhood of other invalid entries this was seen.
+			r.Count("rl_kept_with_invalid_entry")
+			before, after := false, false
+			for _, e := range gov.entries {
+				if !e.null && !e.keyOk {
+					before = before || e.keyStr < keyNames[k]
+					after = after || e.keyStr > keyNames[k]
+				}
+			}
+			if before {
+				r.Count("rl_kept_with_invalid_entry:invalid_key_sorted_before")
+			}
+			if after {
+				r.Count("rl_kept_with_invalid_entry:invalid_key_sorted_after")
+			}
+		}
 		switch {
 		case cm == pm:
 		case cm == "":
@@ -1025,9 +1075,9 @@ func oracle(r *hlib.Result, w *world, cs *caseSpec, rs *roundSpec, acceptStale b
 			case !cur.ok:
 				viol("list-dropped:round-failed", fmt.Sprintf("rule list %s vanished in a round that returned an error", keyNames[k]))
 			case hasInvalidEntry && len(validURLs) == 0:
-				viol("list-dropped:invalid-index-entry", fmt.Sprintf("rule list %s (serving %s) vanished because its index entry has an invalid URL", keyNames[k], pm))
+				viol("list-dropped:invalid-index-entry", fmt.Sprintf("rule list %s (serving %s) vanished because its index entry has an invalid URL; index in key order: %s", keyNames[k], pm, entriesInKeyOrder(gov)))
 			case len(ents) > 0:
-				viol("list-dropped:named-by-index", fmt.Sprintf("rule list %s vanished although the index names it", keyNames[k]))
+				viol("list-dropped:named-by-index", fmt.Sprintf("rule list %s vanished although the index names it; index in key order: %s", keyNames[k], entriesInKeyOrder(gov)))
 			default:
 				r.Count("rl_removed_by_index")
 			}
@@ -1041,22 +1091,44 @@ func oracle(r *hlib.Result, w *world, cs *caseSpec, rs *roundSpec, acceptStale b
 			viol("list-not-old-or-new", fmt.Sprintf("rule list %s serves %s: neither previous (%s), cached (%s) nor newly offered", keyNames[k], cm, dash(pm), dash(pd)))
 		}
 		// O4: valid entries of the index are applied when the round succeeds.
-		if cur.ok && len(validURLs) == 1 {
-			var u int
-			for u = range validURLs {
+		// Of several valid entries for one key (duplicates) the first one in
+		// document order — which the stable sort by key keeps — decides: its
+		// document when the download succeeds, else the previous list when
+		// there is one; only when there is neither, the next entry is tried.
+		if cur.ok && len(validURLs) >= 1 {
+			sig := ""
+			if len(validURLs) > 1 {
+				sig = ":duplicate-keys"
+				r.Count("o4_duplicate_keys_checked")
 			}
-			p := rs.urls[u]
 			switch {
 			case w.usable(pd, acceptStale, rs.fresh[k]):
 				if cm != pd {
-					viol("valid-entry-not-applied:cache", fmt.Sprintf("rule list %s does not serve its cached document %s", keyNames[k], pd))
+					viol("valid-entry-not-applied:cache"+sig, fmt.Sprintf("rule list %s does not serve its cached document %s", keyNames[k], pd))
 				}
-			case p != nil && !p.faulty(cs.rlMax):
-				if cm != strconv.Itoa(p.c.id) || cd != cm {
-					viol("valid-entry-not-applied:download", fmt.Sprintf("rule list %s does not serve the offered document %d (memory %s, file %s)", keyNames[k], p.c.id, dash(cm), dash(cd)))
-				}
-				if gov != nil && len(gov.entries) > len(ents) {
-					r.Count("applied_next_to_other_entries")
+			default:
+				for _, e := range ents {
+					if !e.urlOk {
+						continue
+					}
+					p := rs.urls[e.url]
+					if p == nil || p.faulty(cs.rlMax) {
+						if pm != "" {
+							// Kept as the previous list (checked by O2/O3);
+							// later duplicates are not looked at.
+							break
+						}
+
+						continue
+					}
+					if cm != strconv.Itoa(p.c.id) || cd != cm {
+						viol("valid-entry-not-applied:download"+sig, fmt.Sprintf("rule list %s does not serve the offered document %d (memory %s, file %s); index in key order: %s", keyNames[k], p.c.id, dash(cm), dash(cd), entriesInKeyOrder(gov)))
+					}
+					if gov != nil && len(gov.entries) > len(ents) {
+						r.Count("applied_next_to_other_entries")
+					}
+
+					break
 				}
 			}
 		}
@@ -1069,6 +1141,42 @@ func oracle(r *hlib.Result, w *world, cs *caseSpec, rs *roundSpec, acceptStale b
 	}
 
 	return sawFault, sawApplied
+}
+
+// entriesInKeyOrder renders the entries of an index document in the order
+// loadIndex puts them into (stable by key, null entries last), marking what
+// is invalid about each.
+func entriesInKeyOrder(c *content) string {
+	if c == nil {
+		return "-"
+	}
+	es := append([]entry(nil), c.entries...)
+	sort.SliceStable(es, func(i, j int) bool {
+		if es[i].null || es[j].null {
+			return !es[i].null && es[j].null
+		}
+
+		return es[i].keyStr < es[j].keyStr
+	})
+	parts := []string{}
+	for _, e := range es {
+		switch {
+		case e.null:
+			parts = append(parts, "null")
+		case !e.keyOk:
+			k := e.keyStr
+			if len(k) > 16 {
+				k = k[:16] + "..."
+			}
+			parts = append(parts, strconv.Quote(k)+"(invalid key)")
+		case !e.urlOk:
+			parts = append(parts, e.keyStr+"(invalid url "+strconv.Quote(e.urlStr)+")")
+		default:
+			parts = append(parts, e.keyStr)
+		}
+	}
+
+	return strings.Join(parts, " ")
 }
 
 // checkSnapshots checks every kill-point snapshot of the case.
@@ -1129,6 +1237,17 @@ func (w *world) checkSnapshots(r *hlib.Result, cs *caseSpec, caseNo int, lines [
 		ctx, cancel := context.WithTimeout(context.Background(), 20*time.Second)
 		err = s.RefreshInitial(ctx)
 		cancel()
+		if errors.Is(err, context.DeadlineExceeded) {
+			// Every answer is healthy and every download is bounded by the
+			// client time-out, so only a stalled machine gets here: the
+			// verdict must not depend on that.  Start once more with a long
+			// deadline; a real hang still fails.
+			r.Count("restart_retried_after_stall")
+			s = w.newStorage(&caseSpec{rlMax: 4096, idxMax: 4096, svcMax: 4096, svcEnabled: cs.svcEnabled})
+			ctx, cancel = context.WithTimeout(context.Background(), 2*time.Minute)
+			err = s.RefreshInitial(ctx)
+			cancel()
+		}
 		o := w.observe(s, err == nil)
 		switch {
 		case err != nil && garbageIdx:
@@ -1260,9 +1379,66 @@ func (g *gen) goodEntry(k, u int) entry {
 	return entry{keyStr: keyNames[k], key: k, keyOk: true, urlStr: g.w.listURL(u), urlOk: true, url: u}
 }
 
+// badKeyEntry is an entry whose key is not a valid ID and that sorts at
+// position pos (see badKeysAt).
+func (g *gen) badKeyEntry(pos int) entry {
+	pool := badKeysAt[pos]
+
+	return entry{keyStr: pool[g.rng.IntN(len(pool))], urlStr: g.w.listURL(1 + g.rng.IntN(6))}
+}
+
+// badURLEntry is an entry with the valid key k and an invalid download URL.
+func (g *gen) badURLEntry(k int) entry {
+	return entry{keyStr: keyNames[k], key: k, keyOk: true, urlStr: badURLs[g.rng.IntN(len(badURLs))]}
+}
+
+// genEntriesDense builds a partially invalid index with SEVERAL invalid
+// entries of different kinds at once: every key is independently absent,
+// valid, named only by an invalid-URL entry, or named by both; invalid-key
+// entries are placed at every sort position relative to the valid keys
+// independently; null entries are sprinkled in.  Mistakes in the loops over
+// the (sorted) index entries — leaving a loop early, skipping the first or
+// last entry, handling only the first invalid entry — need such a document.
+func (g *gen) genEntriesDense() (es []entry) {
+	rng := g.rng
+	for k := 1; k < len(keyNames); k++ {
+		u := k
+		if rng.IntN(8) == 0 {
+			u = 1 + rng.IntN(6)
+		}
+		switch rng.IntN(6) {
+		case 0:
+		case 1, 2:
+			es = append(es, g.goodEntry(k, u))
+		case 3, 4:
+			es = append(es, g.badURLEntry(k))
+			g.w.r.Count("gen_key_only_invalid_url")
+		default:
+			es = append(es, g.goodEntry(k, u), g.badURLEntry(k))
+		}
+	}
+	for pos := range badKeysAt {
+		if rng.IntN(3) == 0 {
+			es = append(es, g.badKeyEntry(pos))
+			g.w.r.Count(fmt.Sprintf("gen_bad_key_at_sort_pos_%d", pos))
+		}
+	}
+	for rng.IntN(3) == 0 {
+		es = append(es, entry{null: true})
+	}
+	rng.Shuffle(len(es), func(i, j int) { es[i], es[j] = es[j], es[i] })
+
+	return es
+}
+
 // genEntries builds the entries of an index document.
 func (g *gen) genEntries() (es []entry, shape string) {
 	rng := g.rng
+	if rng.IntN(4) == 0 {
+		g.w.r.Count("gen_index_dense_invalid")
+
+		return g.genEntriesDense(), "ok"
+	}
 	for k := 1; k < len(keyNames); k++ {
 		if rng.IntN(4) == 0 {
 			continue
@@ -1279,7 +1455,11 @@ func (g *gen) genEntries() (es []entry, shape string) {
 		case 0:
 			es = append(es, entry{null: true})
 		case 1:
-			es = append(es, entry{keyStr: badKeys[rng.IntN(len(badKeys))], urlStr: g.w.listURL(1 + rng.IntN(6))})
+			if rng.IntN(2) == 0 {
+				es = append(es, g.badKeyEntry(rng.IntN(len(badKeysAt))))
+			} else {
+				es = append(es, entry{keyStr: badKeys[rng.IntN(len(badKeys))], urlStr: g.w.listURL(1 + rng.IntN(6))})
+			}
 		case 2:
 			k := 1 + rng.IntN(len(keyNames)-1)
 			es = append(es, entry{keyStr: keyNames[k], key: k, keyOk: true, urlStr: badURLs[rng.IntN(len(badURLs))]})
@@ -1529,6 +1709,54 @@ func directedCases(w *world, rng *rand.Rand, each func(*caseSpec)) {
 		cs.rounds = []*roundSpec{round(g, es, "ok"), round(g, es, "ok")}
 		each(cs)
 	}
+	// Several invalid entries at once: an invalid-key entry at every sort
+	// position (or none) x every non-empty set of served lists whose entries
+	// lose their URL, next to valid entries whose new documents must still be
+	// applied; then the index recovers.
+	for pos := -1; pos < len(badKeysAt); pos++ {
+		for set := 1; set < 1<<(len(keyNames)-1); set++ {
+			cs, g := mk(fmt.Sprintf("directed-multi-invalid-pos%d-set%x", pos, set))
+			good, broken := []entry{}, []entry{}
+			for k := 1; k < len(keyNames); k++ {
+				good = append(good, g.goodEntry(k, k))
+				if set&(1<<(k-1)) != 0 {
+					broken = append(broken, entry{keyStr: keyNames[k], key: k, keyOk: true, urlStr: badURLs[(set+k+pos+1)%len(badURLs)]})
+				} else {
+					broken = append(broken, g.goodEntry(k, k))
+				}
+			}
+			if pos >= 0 {
+				pool := badKeysAt[pos]
+				broken = append(broken, entry{keyStr: pool[set%len(pool)], urlStr: w.listURL(5)})
+			}
+			if set%3 == 0 {
+				broken = append(broken, entry{null: true})
+			}
+			rng.Shuffle(len(broken), func(i, j int) { broken[i], broken[j] = broken[j], broken[i] })
+			cs.rounds = []*roundSpec{round(g, good, "ok"), round(g, broken, "ok"), round(g, good, "ok")}
+			each(cs)
+		}
+	}
+	// Two invalid-key entries around the entries of served lists of which
+	// one or two have an invalid URL.
+	for p1 := 0; p1 < len(badKeysAt); p1++ {
+		for p2 := p1; p2 < len(badKeysAt); p2++ {
+			cs, g := mk(fmt.Sprintf("directed-two-invalid-keys-%d-%d", p1, p2))
+			good := []entry{g.goodEntry(1, 1), g.goodEntry(2, 2), g.goodEntry(3, 3), g.goodEntry(4, 4)}
+			b1, b2 := 1+(p1+p2)%4, 1+(p1*2+p2+1)%4
+			broken := []entry{g.badKeyEntry(p1), g.badKeyEntry(p2)}
+			for k := 1; k < len(keyNames); k++ {
+				if k == b1 || k == b2 {
+					broken = append(broken, g.badURLEntry(k))
+				} else {
+					broken = append(broken, g.goodEntry(k, k))
+				}
+			}
+			rng.Shuffle(len(broken), func(i, j int) { broken[i], broken[j] = broken[j], broken[i] })
+			cs.rounds = []*roundSpec{round(g, good, "ok"), round(g, broken, "ok")}
+			each(cs)
+		}
+	}
 	// A complete document that is not an index.
 	for _, shape := range []string{"notjson", "trunc", "wrongtype", "nofilters"} {
 		cs, g := mk("directed-index-" + shape)
@@ -1586,7 +1814,8 @@ func main() {
 	r.Rule = "storage: histories of refresh rounds of the real filterstorage.Default (rule-list index, four rule lists, " +
 		"blocked-service index) against an HTTP fault injector per URL and round (connection reset, time-out before and " +
 		"inside the body, nine non-200 statuses, empty body, body over and at the size limit in both framings, Content-Length " +
-		"and chunked transfers cut short, invalid/duplicate/null index entries, documents that are not JSON); after every round " +
+		"and chunked transfers cut short, invalid/duplicate/null index entries — also several at once: invalid keys at every " +
+		"sort position relative to the valid keys x every set of served lists whose entry lost its URL —, documents that are not JSON); after every round " +
 		"what each list serves (probe hosts + rule count) and the bytes of every cache file are compared with the model and " +
 		"checked by the property oracle; cache directories are copied at request arrival and mid-body (kill points) and " +
 		"restarted on; hash: the same for hashprefix.Filter; a case is non-trivial when at least one download failed and at " +
@@ -1629,10 +1858,14 @@ func main() {
 		t0 = time.Now()
 	}
 	rng := o.Rand("directed")
-	directedCases(w, rng, each)
+	onlyRandom := os.Getenv("VERIF_C13_ONLY") == "random" // debugging aid: what the random campaign finds alone
+	if !onlyRandom {
+		directedCases(w, rng, each)
+	}
 	phase("directed")
 	rng = o.Rand("grid")
-	if o.Thorough() {
+	if onlyRandom {
+	} else if o.Thorough() {
 		gridCases(w, rng, 3, true, each)
 		r.Exhaustive = true
 		r.Notes = append(r.Notes, "grid: every fault kind (8) x every position (index, 3 lists, services) x every round of a 3-round history enumerated")
